@@ -1,8 +1,8 @@
 #!/bin/bash
-# sweep.sh <tier> <seeds...> : run every check on the unchanged tree for several seeds; print only non-zero exits
+# [CHECKS="C11 C12"] sweep.sh <tier> <seeds...> : run every check on the unchanged tree for several seeds; print only non-zero exits
 tier=$1; shift
 for seed in "$@"; do
-  for p in C01 C02 C03 C04 C05 C06 C07 C08 C09 C10 C11 C12 C13 C14 C15 C16 C17 C18 C19 C20; do
+  for p in ${CHECKS:-C01 C02 C03 C04 C05 C06 C07 C08 C09 C10 C11 C12 C13 C14 C15 C16 C17 C18 C19 C20}; do
     out=$(VERIF_SEED=$seed VERIF_EVIDENCE_DIR=/var/tmp/sweep-evid ./check $p --tier $tier 2>&1); rc=$?
     w=$(echo "$out" | grep -o "wall=[0-9.]*s" | head -1)
     if [ $rc -ne 0 ]; then echo "FAIL seed=$seed $p rc=$rc $w"; echo "$out" | grep -E "VIOL|INCONC|mechanism" | head -5; else echo "ok seed=$seed $p $w"; fi
